@@ -123,6 +123,9 @@ pub fn run(cx: &mut Ctx) {
             check(c, &files, &ArcPlan { tables_first: true, shuffle_records: true, ..base.clone() });
             check(c, &files, &ArcPlan { drop_count_label: true, ..base.clone() });
             check(c, &files, &ArcPlan { drop_info_label: true, ..base.clone() });
+            // the same for an arc with no files at all (Count = 0): still an error
+            check(c, &vec![], &ArcPlan { drop_count_label: true, ..base.clone() });
+            check(c, &vec![], &ArcPlan { drop_info_label: true, ..base.clone() });
             for slot in 0..3 {
                 check(c, &files, &ArcPlan { nameless_record: Some(slot), ..base.clone() });
                 for _ in 0..6 {
@@ -164,6 +167,13 @@ pub fn run(cx: &mut Ctx) {
             let mut rng = c.rng.clone();
             let files = gen_arc_files(&mut rng, miri);
             let mut plan = ArcPlan { padded_header: rng.bool(), shuffle_bodies: rng.bool(), shuffle_records: rng.bool(), gaps: rng.bool(), decoy_labels: rng.bool(), tables_first: rng.chance(1, 3), ..Default::default() };
+            if files.is_empty() {
+                match rng.below(6) {
+                    0 => plan.drop_count_label = true,
+                    1 => plan.drop_info_label = true,
+                    _ => {}
+                }
+            }
             if !files.is_empty() {
                 match rng.below(10) {
                     0 => plan.drop_count_label = true,
